@@ -3,6 +3,8 @@
 
 package linker
 
+import "github.com/evanw/esbuild/internal/renamer"
+
 // No-op counterpart of the /verif observation hook (see verif_observe.go, build tag "verif").
 func verifObserveTreeShaking(c *linkerContext) {}
 
@@ -14,3 +16,6 @@ func verifObserveCrossChunk(c *linkerContext) {}
 
 // No-op counterpart of the import/export matching observation hook (see verif_observe_exports.go).
 func verifObserveExports(c *linkerContext) {}
+
+// No-op counterpart of the chunk-level renaming observation hook (see verif_observe_chunknames.go).
+func verifObserveChunkNames(c *linkerContext, chunk *chunkInfo, filesInOrder []uint32, r renamer.Renamer) {}
